@@ -1,13 +1,14 @@
 """C07 — backend vector / matrix-vector primitives equal their algebraic definitions."""
 TARGETS = {
     "c07_builtin": dict(src="props/c07_builtin.cpp", flavors=["gcc", "asan"], asan_div=6),
+    "c07_builtin_blk": dict(src="props/c07_builtin_blk.cpp", flavors=["gcc", "asan"], asan_div=6),
     "c07_block": dict(src="props/c07_block.cpp", flavors=["gcc", "asan"], asan_div=6),
     "c07_eigen": dict(src="props/c07_eigen.cpp", flavors=["gcc", "asan"], asan_div=6),
 }
 
 PROPS = {
     "C07": dict(
-        targets=["c07_builtin", "c07_block", "c07_eigen"],
+        targets=["c07_builtin", "c07_builtin_blk", "c07_block", "c07_eigen"],
         level="exploration",
         rule="tape-decoded cases: value type (float, double, long double, complex<double>, static_matrix<double,b,b> b=2,3,4, static_matrix<complex<double>,2,2>, "
              "Eigen::Matrix<double,b,b> b=2,3, Eigen::Matrix<complex<double>,2,2>) x backend (builtin crs, block_crs with block size 1..5, Eigen, builtin_hybrid b=2,3,4) x primitive "
